@@ -1334,7 +1334,12 @@ impl Fsm {
     fn initialize_data_models_recursive(&mut self, datamodel: &mut dyn Datamodel, state_id: StateId, set_data: bool) {
         // The <scxml> element is never part of an entry set: with late binding its <data> would
         // never get their values, so they are bound at start like with early binding.
-        datamodel.initializeDataModel(self, state_id, set_data || state_id == self.pseudo_root);
+        let is_root = state_id == self.pseudo_root;
+        datamodel.initializeDataModel(self, state_id, set_data || is_root);
+        if is_root {
+            // Bound here once; a model whose root is entered (external initial transition) must not bind it again.
+            self.get_state_by_id_mut(state_id).isFirstEntry = false;
+        }
 
         for child_state in self.getChildStates(state_id).iterator() {
             self.initialize_data_models_recursive(datamodel, *child_state, set_data);
